@@ -430,6 +430,16 @@ def level_conv():
                 t = form % (bin(m)[2:] if form == '0b%s' else m)
                 return ('-' if n < 0 else '') + t
             emit('lit', [lit()], lambda: enc(n))
+    # two literals in one text, every ordered pair of spellings: nothing may leak from one token to the next
+    spell = []
+    for n in (0, 7, 2 ** 31, 2 ** 63 - 1, 2 ** 63, 2 ** 64 - 1, 2 ** 64, 2 ** 64 + 1, 2 ** 200):
+        for form in ('%d', '0x%x', '0o%o', '0b%s'):
+            spell.append((form % (bin(n)[2:] if form == '0b%s' else n), n))
+    for t, v in (('1.5', 1.5), ('1e3', 1000.0), ('0.0', 0.0), ('9007199254740993.0', 9007199254740992.0)):
+        spell.append((t, v))
+    for t1, v1 in spell:
+        for t2, v2 in spell:
+            emit('lit2', [t1, t2], lambda: enc([v1, v2]))
     for x in FLOATS:
         if finite(x):
             for form in ('%r', '%.20e', '%.1100f'):
@@ -667,6 +677,9 @@ def level_builtins():
     OUT.level('4-enumerate-repetition')
     for s in INTS:
         emit('enumerate', [s], lambda: orE([(s, 'a'), (s + 1, 'b'), (s + 2, 'c')]))
+        # the same over iterables that have no length (string views) and over a dict and a tuple
+        for kind in ('elems', 'codepoints', 'dict', 'tuple'):
+            emit('enumerate_' + kind, [s], lambda: orE([(s, 'a'), (s + 1, 'b'), (s + 2, 'c')]))
     for x in (1.5, 1.0, INF, NAN):
         emit('enumerate', [x], lambda: 'E')  # spec: start specifies an integer value
     emit('enumerate0', [], lambda: enc([(0, 'a'), (1, 'b'), (2, 'c')]))
